@@ -28,7 +28,7 @@ valid = econprops.valid_program
 def generate(seed, tier):
     S = core.Streams(seed)
     fam = S['swarm'].choice(FAMS)
-    ops, info = econgen.gen_program(seed, family=fam, tight=S['swarm'].random() < 0.7)
+    ops, info = econgen.gen_program(seed, family=fam, T=(S['knobs'].randint(2, 10) if tier == 'thorough' else None), tight=S['swarm'].random() < 0.7)
     if S['swarm'].random() < 0.4:
         # not only the generator's canonical declaration order: a seeded dependency-respecting order
         from . import c08
